@@ -123,7 +123,7 @@ PROPS = {
             "constructors/__setstate__ within cas/expressions.py, cas/mapper.py, system/memory.py, system/core.py, and every exp "
             "subclass constructor assigns size and sf on every normal path. Does NOT decide comp tiling, slice arithmetic, widths through eval."
         ),
-        rules=[(R_cas.r_width, Q), (R_cas.r_sizeimm, Q)],
+        rules=[(R_cas.r_width, Q), (R_cas.r_width_fields, Q), (R_cas.r_sizeimm, Q)],
         level_text="partial: guarded-return x width-class table check over the rewrite helpers, who-may-write scan of `.size`, definite-assignment on the CFG of the 16 exp constructors",
         level_note="Trusted: provenance classification of receivers (parameter / read-out-of-parameter / fresh constructor result / unknown); unknown receivers are undecided. Stores of `.size` in amoco/arch are handled under C10 (R-SHMUT).",
         technique="guarded-return x table check, who-may-write effect scan, definite assignment on CFG",
@@ -140,7 +140,7 @@ PROPS = {
             "__getstate__/__setstate__ keys agree, dict-bearing subclasses of slot-only __setstate__ lose nothing. Does NOT decide "
             "equivalence of in-place simplification nor printing/equality after unpickling."
         ),
-        rules=[(R_cas.r_oppure, Q), (R_cas.r_sizeimm, Q), (R_cas.r_slotstate, Q)],
+        rules=[(R_cas.r_oppure, Q), (R_cas.r_aliasret, Q), (R_cas.r_own_mapper, Q), (R_cas.r_sizeimm, Q), (R_cas.r_slotstate, Q)],
         level_text="partial: effect analysis over the 203 non-mutator methods/functions of the expression algebra and slot/state table comparison for the 9 classes with custom pickling",
         level_note="Trusted: receiver provenance classifier; stores on results of eval/slicing/operators (possibly shared, e.g. slc.eval/mem.eval res.sf) are listed as undecided, not alarmed; the save/restore idiom of cst.signextend is accepted.",
         technique="effect (attribute-store) analysis with receiver provenance + table<->table comparison of pickling state",
